@@ -252,8 +252,12 @@ class ProbabilisticNode(Node):
                      if state_list[_next_state[NEXT_STATE_IDX]].reach_probability != 0]
         if len(surviving) != len(self.next_states):
             total = sum(_next_state[PROBABILITY] for _next_state in surviving)
-            self.next_states = [(_next_state[PROBABILITY] / total, _next_state[NEXT_STATE_IDX])
-                                for _next_state in surviving]
+            if total > 0:
+                self.next_states = [(_next_state[PROBABILITY] / total, _next_state[NEXT_STATE_IDX])
+                                    for _next_state in surviving]
+            else:
+                # only branches listed with probability 0 are left: nothing to rescale
+                self.next_states = surviving
 
     def remove_path(self, state_to_remove):
         """
